@@ -1,0 +1,44 @@
+use super::Archetypes;
+use crate::{
+    registry::Registry,
+    verif::ArchetypeDump,
+};
+use alloc::vec::Vec;
+
+impl<R> Archetypes<R>
+where
+    R: Registry,
+{
+    pub(crate) fn verif_dump(
+        &self,
+    ) -> (
+        Vec<ArchetypeDump>,
+        usize,
+        Vec<usize>,
+        Vec<(Vec<u8>, usize, usize)>,
+    ) {
+        let archetypes = self.iter().map(|archetype| archetype.verif_dump()).collect();
+        let type_id_lookup = self
+            .type_id_lookup
+            .values()
+            .map(|identifier| identifier.verif_addr())
+            .collect();
+        let foreign_lookup = self
+            .foreign_identifier_lookup
+            .iter()
+            .map(|(key, value)| {
+                (
+                    key.to_vec(),
+                    key.as_ptr() as usize,
+                    value.verif_addr(),
+                )
+            })
+            .collect();
+        (
+            archetypes,
+            self.raw_archetypes.len(),
+            type_id_lookup,
+            foreign_lookup,
+        )
+    }
+}
